@@ -100,6 +100,8 @@ def _check_exp(ctx, tag, where, U, V, N):
         return
     try:
         U, V = need(U, f"{tag} U"), need(V, f"{tag} V")
+        if _unmodelled([U, V]):
+            raise Unsupported(f"library calls the rule does not model: {_unmodelled([U, V])}")
         resid = (V + U) - (V - U) * _exp_trunc(2 * N + 1)
         lo = _low_order(resid, 2 * N + 1)
     except Unsupported as e:
@@ -120,6 +122,8 @@ def _check_int(ctx, tag, where, P, Q, N, which, scale):
         return
     try:
         P, Q = need(P, f"{tag} P"), need(Q, f"{tag} Q")
+        if _unmodelled([P, Q]):
+            raise Unsupported(f"library calls the rule does not model: {_unmodelled([P, Q])}")
         phi = _phi1_trunc(2 * N + 1) if which == 1 else _phi2_trunc(2 * N + 1)
         P0 = P / scale
         if P0.depends_on("h") or Q.depends_on("h"):
@@ -193,7 +197,7 @@ def scalar_hook(extra=None, d=None, ell=None):
             return _div(it, V + U, V - U)
         if name in ("mf.solve", "mf.spsolve", "mf.solve_triangular", "la.solve", "la.lu_solve", "la.solve_triangular", "np.linalg.solve") and n >= 2:
             return _div(it, pos[1], pos[0])
-        if name in ("la.lu_factor", "np.asarray", "np.atleast_1d", "np.atleast_2d", "np.transpose", "np.real", "np.ascontiguousarray") and n >= 1:
+        if name in ("la.lu_factor", "np.asarray", "np.atleast_1d", "np.atleast_2d", "np.transpose", "np.real", "np.ascontiguousarray", "np.diag") and n >= 1:
             return pos[0]
         if name in ("np.array", "np.copy") and n >= 1:
             return clone(pos[0])
@@ -256,6 +260,21 @@ def _has_unknown(v):
     return False
 
 
+# library functions the rules know as *distinct* functions (kept opaque on purpose: a value that differs in one of them differs)
+KNOWN_OPAQUE = {"np.log2", "np.ceil", "np.floor", "np.round", "np.trunc", "np.rint", "np.fix", "math.ceil", "math.floor", "math.log2", "math.trunc",
+                "int", "round", "float", "mf._ell", "np.log", "np.exp", "np.tan", "np.sqrt", "np.abs", ".max", ".min", ".sum", "np.linalg.norm"}
+
+
+def _unmodelled(values):
+    """names of library calls occurring in the values that no rule models: a formula containing one is not understood"""
+    out = []
+    for v in values:
+        for nm, _args in I.atoms_named(v, "call:") if isinstance(v, (F.Rat, tuple)) else []:
+            if nm[5:] not in KNOWN_OPAQUE and nm[5:] not in out:
+                out.append(nm[5:])
+    return out
+
+
 def _find_crash(v):
     if I.is_crash(v):
         return v
@@ -281,8 +300,19 @@ def verdict(ctx, ok, title, where, detail=None, values=()):
         bad = next(v for v in values if _has_unknown(v))
         ctx.error(title, where, f"could not evaluate: {bad!r}"[:400])
         return False
+    um = _unmodelled([v for v in values if isinstance(v, (F.Rat, tuple))])
+    if um:
+        ctx.error(title, where, f"the value contains library calls the rule does not model: {um}"[:400])
+        return False
     ctx.fail(title, where, detail)
     return False
+
+
+def _strip_int(v):
+    p = fn_parts(v) if isinstance(v, F.Rat) else None
+    if p is not None and p[0] in ("call:int", "call:np.int64", "call:np.intp") and len(p[1]) == 1 and isinstance(p[1][0], F.Rat):
+        return p[1][0]
+    return v
 
 
 def _last(calls, *suffixes):
@@ -551,7 +581,11 @@ def r2_thresholds(ctx):
             if name in ("np.linalg.norm", "la.norm", "scipy.linalg.norm", "norm") and pos:
                 o = pos[1] if len(pos) > 1 else kw.get("ord")
                 if len(pos) <= 2 and set(kw) <= {"ord"} and o is not None and I.is_const(o) and I.cval(o) == 1:
-                    return F.fn("norm1", to_rat(pos[0]))
+                    v = to_rat(pos[0])
+                    # a norm is homogeneous and the step is positive: ||A h|| = h ||A||
+                    if isinstance(v, F.Rat) and not is_unknown(v) and v.d.is_const() and len(v.n.t) == 1 and (v / A).equals(h ** _degree(v, "h")):
+                        return (v / A) * F.fn("norm1", A)
+                    return F.fn("norm1", v)
                 return F.fn("some-other-norm", *[to_rat(p_) for p_ in pos if not is_unknown(to_rat(p_))])
             return NotImplemented
 
@@ -612,7 +646,7 @@ def r3_squaring(ctx):
         lp = loops[0]
         ta = tc.ordered()
         s = ta[1] if len(ta) > 1 else None
-        trip = trip_count(lp)
+        trip = _strip_int(trip_count(lp))
         ok = trip is not None and I.same_value(trip, s)
         verdict(ctx, ok, "expmint: the squaring loop runs s times, s being the scaling power given to the order-13 table", lp.node,
                 {"trip count": repr(trip)[:200], "s": repr(s)[:200]}, [trip, s])
@@ -699,7 +733,7 @@ def r3_squaring(ctx):
         ctx.error("_expm_SS: order-13 route", fn, f"expected one squaring loop: {len(r.it.loops)}")
     else:
         lp = r.it.loops[0]
-        trip = trip_count(lp)
+        trip = _strip_int(trip_count(lp))
         ta = tc.ordered()
         s = ta[1] if len(ta) > 1 else None
         ok = trip is not None and I.same_value(trip, s)
@@ -731,6 +765,20 @@ def _ordered_hook(extra=None):
         if name in ("np.asarray", "np.atleast_2d") and pos:
             return pos[0]
         return NotImplemented
+
+    return hook
+
+
+def _square_shapes(extra):
+    """every matrix of the regime is n x n (E, I, I2 and what is formed from them when no input matrix is given)"""
+    n = F.sym("n")
+
+    def hook(it, name, pos, kw, node):
+        if name == "getattr" and pos[1] == "shape" and isinstance(pos[0], F.Rat) and not pos[0].is_const():
+            return (n, n)
+        if name == "len" and len(pos) == 1 and isinstance(pos[0], F.Rat) and not pos[0].is_const():
+            return n
+        return extra(it, name, pos, kw, node)
 
     return hook
 
@@ -773,25 +821,22 @@ def r4_siblings(ctx):
 
     want = {1: ("I2 / h", "I - I2 / h"), 0: ("I", "0.0")}
     regimes = (("B is None, half false", None, False, "{}"), ("B given", B, False, "({}).dot(B)"),
-               ("B is None, half true", None, True, "({0})[:, :({1}).shape[1] // 2]"))
+               ("B is None, half true", None, True, "({})[:, :n // 2]"))
     for q in ("getEPQ1", "getEPQ_pow"):
         fn = ctx.src.func(EXPM, q)
         for order in (0, 1):
             for label, Bv, half, shape in regimes:
-                it = Interp(ctx, EXPM, hook=_ordered_hook(extra), erase=False)
+                it = Interp(ctx, EXPM, hook=_ordered_hook(_square_shapes(extra) if Bv is None else extra), erase=False)
                 ret = it.call(q, [A, h, F.const(order), Bv, half])
                 if not isinstance(ret, tuple) or len(ret) != 3:
                     ctx.error(f"{q}(order={order}; {label}): return", fn, repr(ret)[:300])
                     continue
-                env = {"I": Isym, "I2": I2sym, "h": h, "B": B, "E": Esym}
-                # all of E, I, I2, P, Q have the shape of A: the column count may be read from any of them
-                shaped = (("E", "I", "I2", want[order][0]) + ((want[order][1],) if order == 1 else ())) if half else ("E",)
-                wps = [it.expr(shape.format(want[order][0], sh), env) for sh in shaped]
-                wqs = [it.expr(shape.format(want[order][1], sh), env) if order == 1 else F.const(0) for sh in shaped]
-                wp, wq = wps[0], wqs[0]
+                env = {"I": Isym, "I2": I2sym, "h": h, "B": B, "E": Esym, "n": F.sym("n")}
+                wp = it.expr(shape.format(want[order][0]), env)
+                wq = it.expr(shape.format(want[order][1]), env) if order == 1 else F.const(0)
                 src = _last(it.calls, "expmint", "expmint_pow")
                 sa = src.ordered() if src is not None else []
-                ok = I.same_value(ret[0], Esym) and any(I.same_value(ret[1], v) for v in wps) and any(I.same_value(ret[2], v) for v in wqs) \
+                ok = I.same_value(ret[0], Esym) and I.same_value(ret[1], wp) and I.same_value(ret[2], wq) \
                     and len(sa) >= 2 and I.same_value(sa[0], A) and I.same_value(sa[1], h)
                 what = {"B is None, half false": "", "B given": " times B from the right", "B is None, half true": ", first half of the columns"}[label]
                 verdict(ctx, ok, f"{q}(order={order}; {label}): E, P = {'I2/h' if order else 'I'}{what}, Q = {('I - I2/h' + what) if order else '0'} "
@@ -949,7 +994,7 @@ def r5_ssmodel(ctx):
                     "foh": "input linear across the step"}[method]
             what = f"H_z(z) is the exactly sampled response with the {what}"
         ok = Hz.equals(want)
-        ctx.check(ok, f"c2d[{tag}]: {what}", cfn, None if ok else {"got": repr(Hz)[:400], "want": repr(want)[:400]})
+        verdict(ctx, ok, f"c2d[{tag}]: {what}", cfn, {"got": repr(Hz)[:400], "want": repr(want)[:400]}, [zA, zB, zC, zD])
         zh = zm.attrs.get("h")
         ok = isinstance(zh, F.Rat) and zh.equals(h)
         ctx.check(ok, f"c2d[{tag}]: the discrete model is constructed with the step h it was computed for", cfn, None if ok else repr(zh))
@@ -966,7 +1011,7 @@ def r5_ssmodel(ctx):
             continue
         for nm, got, wantv in (("A", sA, a), ("B", sB, b), ("C", sC, c), ("D", sD, d)):
             ok = got.equals(wantv)
-            ctx.check(ok, f"d2c[{tag}](c2d[{tag}](s)).{nm} == s.{nm}", dfn, None if ok else repr(got)[:400])
+            verdict(ctx, ok, f"d2c[{tag}](c2d[{tag}](s)).{nm} == s.{nm}", dfn, repr(got)[:400], [got])
     # a conversion leaves the model it converts (and anything the model retains between calls) as it was
     for nm, fn in (("c2d", cfn), ("d2c", dfn)):
         ev = sorted(set(inplace[nm]))
@@ -992,6 +1037,34 @@ FLOAT_DTYPES = {"float", "np.float64", "np.double", "np.float_", "np.longdouble"
                 "'float'", "'f8'", "'complex128'", "'complex'"}
 
 
+def _shape_of(v, bufs):
+    """shape of a value of getEPQ2 as a tuple of symbols: A (and A h) is n x n (a state matrix is square), B (and B h) is r x i,
+    np.eye(k) is k x k, an allocated array has the shape it was allocated with; NotImplemented otherwise"""
+    p = fn_parts(v)
+    if p is not None and p[0] == "eye":
+        return (p[1][0], p[1][0])
+    nm = I.sym_name(v)
+    if nm is not None and nm in bufs and isinstance(bufs[nm][0], tuple):
+        return bufs[nm][0]
+    try:
+        if v.d.is_const() and len(v.n.t) == 1:
+            (mono, _c), = v.n.t.items()
+            mats = []
+            for a_, e_ in mono:
+                d_ = F.atom_desc(a_)
+                if d_[0] == "s" and d_[1] in ("A", "B"):
+                    mats.append((d_[1], e_))
+                elif not (d_[0] == "s" and d_[1] == "h"):
+                    return NotImplemented
+            if mats == [("A", 1)]:
+                return (F.sym("n"), F.sym("n"))
+            if mats == [("B", 1)]:
+                return (F.sym("r"), F.sym("i"))
+    except Exception:  # noqa
+        pass
+    return NotImplemented
+
+
 def r6_augmented(ctx):
     """getEPQ2: the augmented matrix handed to _expm_SS holds A h, B h (and the identity for a first-order hold) in the blocks the exponential
     of which contains E, P, Q; it can hold them (floating dtype whatever the dtypes of A and h); E, P, Q are the blocks documented"""
@@ -1011,10 +1084,10 @@ def r6_augmented(ctx):
                 if name in ("np.eye", "np.identity") and len(pos) == 1:
                     return F.fn("eye", to_rat(pos[0]))
                 if name == "getattr" and pos[1] == "shape" and isinstance(pos[0], F.Rat):
-                    p_ = fn_parts(pos[0])
-                    if p_ is not None and p_[0] == "eye":            # np.eye(k).shape is (k, k)
-                        return (p_[1][0], p_[1][0])
-                    return NotImplemented
+                    return _shape_of(pos[0], bufs)
+                if name == "len" and len(pos) == 1 and isinstance(pos[0], F.Rat):
+                    sh = _shape_of(pos[0], bufs)
+                    return sh[0] if isinstance(sh, tuple) else NotImplemented
                 if name == "_expm_SS":
                     return F.sym("EM")
                 return NotImplemented
